@@ -204,6 +204,30 @@ def text_forward(asm, acc, m, tup, alias=False, expr=False):
                       {'kind': 'fwdtext', 'm': m, 'args': list(tup), 'alias': alias, 'expr': expr}, {'status': st})
 
 
+def sp_base_cases(asm, acc):
+    """`c.lwsp rd, off(base)` / `c.swsp rs2, off(base)`: the instruction addresses the stack pointer and nothing else - a spelling
+    that names another base register cannot be what the halfword does"""
+    for m, reg in (('c.lwsp', 'x8'), ('c.swsp', 'a0')):
+        for base in ('x9', 'gp', 'x0', 'nosuch', '9', 's1', 'sp', 'x2'):
+            for off in (0, 4, 8, 252):
+                line = '%s %s, %d(%s)' % (m, reg, off, base)
+                acc['n'] += 1
+                import warnings
+                with warnings.catch_warnings():
+                    warnings.simplefilter('ignore')         # Python itself warns about `4 (x9)` when the target evaluates it
+                    o = monitors.observe(asm, line, tap=False)
+                acc['ctr']['sp_relative_offset_base_spellings'] += 1
+                acc['ntkeys'].add(core.ckey('spbase', line))
+                if not o.ok:
+                    continue
+                if base not in ('sp', 'x2'):
+                    core.add_viol(acc, 'line %r assembles to %s (an sp-relative access): the base register it names is not sp' % (line, o.out.hex()), {'kind': 'spbase'}, {})
+                else:
+                    want = asm.INSTRUCTIONS[m](reg, off)
+                    if len(o.out) != 2 or int.from_bytes(o.out, 'little') != want:
+                        core.add_viol(acc, 'line %r assembles to %s, the encoder gives %#06x for the same operands' % (line, o.out.hex(), want), {'kind': 'spbase'}, {})
+
+
 def label_case(asm, acc, seed, idx):
     """explicit c.j / c.jal / c.beqz / c.bnez whose operand is a label: the immediate the halfword carries must be the distance
     to the label.  Mnemonic written in lower, upper or mixed case (all accepted by the parser)."""
@@ -244,6 +268,8 @@ def run_shard(sh, deadline):
     asm = core.load_asm()
     acc = core.new_acc()
     if sh['kind'] == 'label':
+        if sh['lo'] == 0:
+            sp_base_cases(asm, acc)
         for idx in range(sh['lo'], sh['hi']):
             label_case(asm, acc, sh['seed'], idx)
         return acc
@@ -313,6 +339,8 @@ def replay(case):
     acc = core.new_acc()
     if case['kind'] == 'label':
         label_case(asm, acc, case['seed'], case['idx'])
+    elif case['kind'] == 'spbase':
+        sp_base_cases(asm, acc)
     elif case['kind'] == 'fwd':
         check_forward(asm, acc, case['m'], case['args'])
     elif case['kind'] == 'fwdtext':
